@@ -110,24 +110,58 @@ partial def depth : Sexp → Nat
   | .list l => 1 + (l.map depth).foldl max 0
   | _ => 0
 
+/-- number of lists in an item tree -/
+partial def listCount : Sexp → Nat
+  | .list l => 1 + (l.map listCount).foldl (· + ·) 0
+  | _ => 0
+
+/-- (nesting depth, number of lists) of a text that is one parenthesised list -/
+def textShape (t : Bytes) : Option (Nat × Nat) :=
+  match parseSexp t with
+  | some [x] => some (depth x, listCount x)
+  | _ => none
+
+/-- (nesting depth, number of lists) of the model's BODYSTRUCTURE for the message `m` under the header
+    answers `t` -/
+def modelShape (m t : String) (qtbl : List (Bytes × Bytes)) : Option (Nat × Nat) :=
+  match unhex m, parseTable t with
+  | some lit, some tbl =>
+    match structureTexts (envOfTable tbl) (detOfTable tbl) (quoteOfTable qtbl) lit with
+    | .ok (_, ms) => textShape ms
+    | .error _ => none
+  | _, _ => none
+
 /-- C12 on one observed `NewParsedMessage`: every quoting result in the table satisfies the
     hypothesis `QuoteOK`, and the three produced texts are well-formed parenthesised lists
-    according to the Lean reader.
+    according to the Lean reader, and the BODYSTRUCTURE list is nested as deep as the MIME tree of the
+    message is (and holds as many lists): the reference is the BODYSTRUCTURE of the model — no limit on
+    depth, width or length; for a well-built message the tree it was built from
+    (`structure_of_built_message_partial`) — for the same bytes under the same header answers.
     `judge-c12-struct <hexmsg> <table> <qtable> => ok <hexbody> <hexstructure> <hexenvelope>` -/
 def judgeStruct (args : List String) : String :=
   match args with
-  | [_, _, qt, "=>", "ok", b, s, e] =>
-    match parseQ qt, unhex b, unhex s, unhex e with
-    | some qtbl, some bb, some sb, some eb =>
-      if !(qtbl.all fun (_, q) => quotedOK q) then "violation quote-hypothesis-fails"
-      else if !isParenList bb then "violation body-not-a-wellformed-list"
-      else if !isParenList sb then "violation bodystructure-not-a-wellformed-list"
-      else if !isParenList eb then "violation envelope-not-a-wellformed-list"
-      else
-        match parseSexp sb with
-        | some [x] => if depth x ≥ 4 then "ok nontrivial-nested" else if depth x ≥ 3 then "ok nontrivial" else "ok trivial"
-        | _ => "ok trivial"
-    | _, _, _, _ => "violation unparsable-implementation-output"
+  | [m, t, qt, "=>", "ok", b, s, e] =>
+    match parseQ qt with
+    | none => "violation unparsable-implementation-output"
+    | some qtbl =>
+      -- the model's BODYSTRUCTURE first (the implementation's texts are decoded afterwards: the model is
+      -- several times slower with some hundred KB more of live lists around)
+      let shapeM := modelShape m t qtbl
+      match unhex b, unhex s, unhex e with
+      | some bb, some sb, some eb =>
+        if !(qtbl.all fun (_, q) => quotedOK q) then "violation quote-hypothesis-fails"
+        else if !isParenList bb then "violation body-not-a-wellformed-list"
+        else if !isParenList sb then "violation bodystructure-not-a-wellformed-list"
+        else if !isParenList eb then "violation envelope-not-a-wellformed-list"
+        else
+          match textShape sb, shapeM with
+          | some (di, ni), some (dm, nm) =>
+            if di != dm then s!"violation tree-depth-differs bodystructure-depth={di} mime-tree-depth={dm}"
+            else if ni != nm then s!"violation tree-list-count-differs bodystructure-lists={ni} mime-tree-lists={nm}"
+            else if di ≥ 4 then "ok nontrivial-nested" else if di ≥ 3 then "ok nontrivial" else "ok trivial"
+          | some _, none => "violation model-has-no-structure"
+          | none, _ => "ok trivial"
+      | _, _, _ => "violation unparsable-implementation-output"
   | _ :: _ :: _ :: "=>" :: "panic" :: _ => "violation panic"
   | _ => "violation unparsable-implementation-output"
 
